@@ -58,6 +58,11 @@ FUNC_TEMPLATES = {
     "closure": "def make(k, d):\n    def f(x, _d={d}):\n        return x + k\n    return f\n",
     "const": "def make(k, d):\n    def f(x, _d={d}):\n        return x + {kconst}\n    return f\n",
     "global": "G = {g}\ndef make(k, d):\n    def f(x, _d={d}):\n        return x + G\n    return f\n",
+    # the constant sits in a leading expression statement (not a docstring) of a multi-statement body
+    "stmt": "def make(k, d):\n    def f(x, _d={d}):\n        acc = []\n        acc.append({kconst})\n        return x + acc[-1]\n    return f\n",
+    # a multi-line string literal whose continuation line starts in column 0
+    "mls": "def make(k, d):\n    def f(x, _d={d}):\n        s = \"\"\"ab\ncd\"\"\"\n        return x + {kconst} + len(s) - 5\n    return f\n",
+    "stmt1": "ACC = []\ndef make(k, d):\n    def f(x, _d={d}):\n        ACC.append({kconst})\n        return x + ACC.pop()\n    return f\n",
 }
 
 _func_counter = [0]
@@ -67,6 +72,16 @@ def build_func(template, params, scratch):
     """Writes the source to a real file so that inspect.getsource works (AST hashing path)."""
     k, d, g = params.get("k", 0), params.get("d", 0), params.get("g", 0)
     src = FUNC_TEMPLATES[template].format(d=d, kconst=k, g=g)
+    if params.get("depth"):
+        # the same definition written at a deeper nesting level (lines of a multi-line string
+        # literal that start in column 0 stay where they are)
+        lines = src.split("\n")
+        out, in_str = [], False
+        for ln in lines:
+            out.append(ln if in_str or not ln else "    " + ln)
+            if ln.count('"""') % 2:
+                in_str = not in_str
+        src = "if True:\n" + "\n".join(out)
     _func_counter[0] += 1
     # the file name must not influence the hash; a fresh name per build checks that too
     Path(scratch).mkdir(parents=True, exist_ok=True)
@@ -154,7 +169,8 @@ def norm(spec):
         return [t] + [norm(s) for s in spec[1:4]]
     if t == "func":
         tpl, p = spec[1], spec[2]
-        rel = {"closure": ("k", "d"), "const": ("k", "d"), "global": ("g", "d")}[tpl]
+        rel = {"closure": ("k", "d"), "const": ("k", "d"), "global": ("g", "d"), "stmt": ("k", "d"),
+               "stmt1": ("k", "d"), "mls": ("k", "d")}[tpl]
         return [t, tpl, [(n, p.get(n, 0)) for n in rel]]
     if t == "ndarray":
         return [t, spec[1], list(spec[2]), list(spec[3])]  # memory order is not content
@@ -213,6 +229,14 @@ def reorder(spec, draw):
         return [t, draw(st.permutations(items)) if len(items) > 1 else items]
     if t in ("attrs", "obj"):
         return [t, spec[1], {k: reorder(v, draw) for k, v in spec[2].items()}]
+    if t == "slice":
+        return [t] + [reorder(s, draw) for s in spec[1:4]]
+    if t == "func":
+        # same definition at another nesting depth of its source text
+        return [t, spec[1], dict(spec[2], depth=draw(st.integers(0, 1)))]
+    if t == "ndarray" and len(spec[2]) >= 2:
+        # same content in the other memory layout (C <-> Fortran order)
+        return [t, spec[1], spec[2], spec[3], draw(st.sampled_from("CF"))]
     return spec
 
 
@@ -452,8 +476,9 @@ def local_mutations(s):
             out.append(("content", [t, s[1], {"a": s[2]["b"], "b": s[2]["a"]}]))
     elif t == "func":
         p = s[2]
-        rel = {"closure": "k", "const": "k", "global": "g"}[s[1]]
-        lab = {"closure": "func-closure", "const": "func-body", "global": "func-global"}[s[1]]
+        rel = {"closure": "k", "const": "k", "global": "g", "stmt": "k", "stmt1": "k", "mls": "k"}[s[1]]
+        lab = {"closure": "func-closure", "const": "func-body", "global": "func-global",
+               "stmt": "func-body-stmt", "stmt1": "func-body-first-stmt", "mls": "func-body"}[s[1]]
         out += [(lab, ["func", s[1], dict(p, **{rel: p.get(rel, 0) + 1})]),
                 ("func-default", ["func", s[1], dict(p, d=p.get("d", 0) + 1)])]
     elif t == "ndarray":
@@ -469,6 +494,11 @@ def local_mutations(s):
             out.append(("shape", ["ndarray", dtype, [shape[1], shape[0]], vals, order]))
         if len(shape) >= 2:
             out.append(("shape", ["ndarray", dtype, [n], vals, order]))
+        if len(shape) == 2 and n:
+            # the transposed content stored in the other memory layout has the same raw bytes
+            r, c = shape
+            tv = [vals[j * c + i] for i in range(c) for j in range(r)]
+            out.append(("layout", ["ndarray", dtype, [c, r], tv, "F" if order == "C" else "C"]))
         if n:
             dmap = {"int64": "float64", "float64": "int64", "int32": "float32", "float32": "int32",
                     "uint8": "bool", "bool": "uint8"}
